@@ -129,8 +129,9 @@ def pattern_lists(rng, count):
             return ["xor", e, x]
         return ["ite", x, e, rng.choice(base)]
 
+    off = rng.randrange(16) if count < 16 else 0
     for i in range(count):
-        kind = i % 12
+        kind = (i + off) % 16
         k = rng.randint(2, 4)
         vs = rng.sample(base, k)
         terms = [v if rng.random() < 0.7 else sub(1) for v in vs]
@@ -191,6 +192,20 @@ def pattern_lists(rng, count):
             a, b = terms[0], terms[1]
             e = rng.choice([["or", ["and", ["not", a], ["not", b]], ["and", a, b]], ["or", ["and", a, ["not", b]], ["and", ["not", a], b]],
                             ["or", ["and", b, a], ["and", ["not", a], ["not", b]]]])
+        elif kind in (12, 13):  # a sub-term repeated under a top-level xor (cache / accumulator reuse)
+            T = rng.choice([["and", vs[0], vs[1]], ["and", ["not", vs[0]], ["not", vs[1]]], ["and"] + [["not", v] for v in vs], ["or", vs[0], vs[1]], ["and", vs[0], sub(1)]])
+            # the second occurrence either literally or as its De Morgan twin (which CSE does not share)
+            def twin(t):
+                if t[0] == "and" and all(isinstance(x, list) and x[0] == "not" for x in t[1:]) and rng.random() < 0.6:
+                    return ["not", ["or"] + [x[1] for x in t[1:]]]
+                return t
+            o1, o2 = rng.choice(base), rng.choice(base)
+            inner = rng.choice([["xor", o2, twin(T)], ["and", o2, twin(T)], ["or", o2, twin(T)], ["not", twin(T)]])
+            e = ["xor", T, ["and", o1, inner]] if kind == 12 else ["xor", ["and", o1, inner], T, rng.choice(base)]
+        elif kind == 14:  # the same compound term consumed plain and negated by siblings
+            T = ["or", vs[0], vs[1]] if rng.random() < 0.5 else ["xor", vs[0], ["and", vs[1], rng.choice(base)]]
+            x, y = rng.choice(base), rng.choice(base)
+            e = rng.choice([["or", ["and", T, x], ["and", ["not", T], y]], ["xor", ["and", T, x], ["and", ["not", T], y]], ["ite", T, x, y], ["and", ["or", T, x], ["or", ["not", T], y]]])
         else:  # mix
             e = ["or", ["and", sub(1), sub(1)], ["and", sub(1), sub(1)], ["not", sub(1)]]
         e = wrap(e)
